@@ -168,6 +168,10 @@ def str_method(x, st, recv, name, pos, kw, node, chain):
         if a0 is not None and a0.k == "strlist":
             return [(st, vstr(z3.Function("py_join", S, z3.ArraySort(I, S), I, I, S)(
                 s, a0.t["arr"], a0.t["off"], a0.t["len"])))]
+        if a0 is not None and a0.k == "sseq":
+            # d.join(pieces) over an abstract sequence of strings: an uninterpreted function shared by code and spec
+            from .vx import SeqS
+            return [(st, vstr(_ack(st, "join", (s, a0.t), S)))]
         if a0 is not None and a0.k == "revchars":
             r = fresh("str", "rev")
             st.pc.append(z3.Length(r.t) == z3.Length(a0.t))
@@ -179,6 +183,15 @@ def str_method(x, st, recv, name, pos, kw, node, chain):
         return [(st, fresh("str", "join"))]
     if name == "split" or name == "rsplit" or name == "splitlines":
         minlen = 1 if (pos and name != "splitlines") else 0
+        if (x.mode == "value" and name == "split" and len(pos) == 1 and pos[0].k == "str" and not kw
+                and getattr(x.c, "seq_split", False)):
+            from .vx import SeqS
+
+            def mk(s2):
+                seq = _ack(s2, "split", (s, pos[0].t), SeqS)
+                s2.pc.append(z3.Length(seq) >= 1)       # split with a non-empty separator yields at least one piece
+                return [(s2, V("sseq", seq))]
+            return x.check_v(st, z3.Length(pos[0].t) > 0, "ValueError", node, mk)
         if x.mode == "value" and pos and pos[0].k == "str" and name != "splitlines":
             # s.split(sep) raises ValueError for an empty separator
             return x.check_v(st, z3.Length(pos[0].t) > 0, "ValueError", node,
@@ -195,6 +208,25 @@ def str_method(x, st, recv, name, pos, kw, node, chain):
     if x.mode == "frame":
         return [(st, vopq("str." + name))]
     raise OutOfReach(f"str method {name} (line {node.lineno})")
+
+
+_ACK: dict = {}
+
+
+def _ack(st, fname, args, sort):
+    """an uninterpreted function application with sequence-sorted argument or result, Ackermannized: one
+    constant per distinct argument tuple plus explicit congruence with every earlier application (z3's sequence
+    solver is incomplete with such functions, but decides the expanded form)"""
+    key = (fname,) + tuple(a.get_id() for a in args)
+    hit = _ACK.get(key)
+    if hit is None:
+        c = z3.Const(f"py_{fname}!{len(_ACK)}", sort)
+        hit = _ACK[key] = (c, args)
+    c = hit[0]
+    for k2, (c2, args2) in _ACK.items():
+        if k2[0] == fname and k2 != key:
+            st.pc.append(z3.Implies(z3.And(*[a == b for a, b in zip(args, args2)]), c == c2))
+    return c
 
 
 def _mk(lst):
